@@ -22,8 +22,20 @@ MALFORMED = {
     "long_line": [b"*" + b"10" * 2048 + b";\n", b"*" + b"ZY" * 2048 + b";\n", b"*" + b"8" * 4097 + b";\n"],
     "crlf": [b"*8DABCDEF0000000000000000000000;\r\n"],
     "no_star": [b"8D4840D6202CC371C32CE0576098;\n"],
+    "misplaced_markers": [b";*\n", b"abc;def*gh\n", b"*8D4840D6202CC371C32CE0576098;*8D40\n", b"**;;\n", b";\r\n", b"*;*;\n", b"* ;\n"],
+    "punctuation_soup": None,  # generated per scenario: random lines over the alphabet of the protocol
 }
+SOUP_ALPHABET = b"*;*;8DAF09 \r"
+
+
+def soup(rng):
+    out = []
+    for _ in range(10):
+        n = rng.randint(1, 12)
+        out.append(bytes(rng.choice(SOUP_ALPHABET) for _ in range(n)) + b"\n")
+    return out
 SEGMENTATIONS = ["per_line", "all_at_once", "per_byte", "random_cuts", "cut_after_star", "cut_in_hex", "cut_before_semicolon", "cut_before_newline", "three_lines"]
+SENTINEL = 0xFFFFF0
 DELAYS = {"none": (0, 0), "lt_timeout": (0.005, 0.030), "near_timeout": (0.045, 0.055), "gt_timeout": (0.070, 0.150)}
 
 
@@ -34,6 +46,8 @@ def build_feed(rng, n_lines, malformed, limit_parsing=False):
     expect = {}
     counter = rng.randrange(1 << 20)
     bad = MALFORMED[malformed]
+    if bad is None:
+        bad = soup(rng)
     for k in range(n_lines):
         roll = rng.random()
         a = rng.choice(addrs)
@@ -63,6 +77,9 @@ def build_feed(rng, n_lines, malformed, limit_parsing=False):
         counter += 1
         a = rng.choice(addrs)
         lines.append(("good", enc.line(enc.long_frame(17, 5, a, enc.me_unique(0, counter))), a, None))
+    # the last line of every feed announces a sentinel aircraft: once it is on screen every earlier
+    # line has been consumed (lines are processed in order), however slowly the client runs
+    lines.append(("good", enc.line(enc.long_frame(17, 5, SENTINEL, enc.me_ident(4, 0, "ENDFEED"))), SENTINEL, "ENDFEED"))
     for kind, data, a, cs in lines:
         if kind == "good":
             e = expect.setdefault(a, {"msgs": 0, "callsign": None})
@@ -173,8 +190,11 @@ def check_1090(col, binpath, rng, tag, seg_kind, delay_kind, malformed, scratch)
         s.close()
 
 
-def parse_when_stable(sess, want_count=None, cap=40.0):
-    """Switch to the Airplanes tab and wait until its contents stop changing."""
+def parse_when_stable(sess, sentinel_msgs=1, cap=60.0):
+    """Switch to the Airplanes tab; wait until the sentinel aircraft of the feed shows the expected
+    message count (everything before it has then been processed) and the table stopped changing.
+    If the sentinel never shows up the table is taken as it is after `cap` seconds or 6 s of
+    silence: a lost sentinel is a lost line."""
     sess.key("F3")
     last = None
     stable_since = time.monotonic()
@@ -188,7 +208,10 @@ def parse_when_stable(sess, want_count=None, cap=40.0):
         if snap != last:
             last = snap
             stable_since = time.monotonic()
-        elif time.monotonic() - stable_since > 0.9 and sess.srv.done.is_set() is not None:
+            continue
+        quiet = time.monotonic() - stable_since
+        seen = rows is not None and any(r["icao"] == "%06x" % SENTINEL and r["msgs"] == str(sentinel_msgs) for r in rows)
+        if (seen and quiet > 0.5) or quiet > 6.0:
             return rows
     return sess.airplanes_rows()
 
@@ -233,7 +256,8 @@ def check_radar(col, binpath, rng, tag, seg_kind, delay_kind, malformed, disconn
         for k in range(rng.randint(5, 20)):
             a = rng.choice(addrs)
             lines2.append(("good", enc.line(enc.long_frame(17, 5, a, enc.me_unique(23, 900000 + k))), a, None))
-        plan += [("sleep", 3.0), ("close",), ("sleep", rng.choice([0.1, 0.5, 2.0])), ("accept", 25.0)] + [("send", d) for _, d, *_ in lines2] + [("mark", "feed2_done"), ("sleep", 40)]
+        lines2.append(("good", enc.line(enc.long_frame(17, 5, SENTINEL, enc.me_ident(4, 0, "ENDFEED"))), SENTINEL, "ENDFEED"))
+        plan += [("sleep", 3.0), ("close",), ("sleep", rng.choice([0.1, 0.5, 2.0])), ("accept", 25.0)] + [("send", d) for _, d, *_ in lines2] + [("mark", "feed2_done"), ("sleep", 60)]
     elif disconnect == "midline":
         plan += [("sleep", 3.0), ("send", b"*8D4840D6202C"), ("sleep", 0.2), ("close",), ("sleep", 20)]
     else:
@@ -287,7 +311,7 @@ def check_radar(col, binpath, rng, tag, seg_kind, delay_kind, malformed, disconn
                 raise Inconclusive("second connection not observed")
             for _, d, a, _ in lines2:
                 expect[a]["msgs"] += 1
-            rows = parse_when_stable(sess)
+            rows = parse_when_stable(sess, sentinel_msgs=2)
             if rows is None:
                 raise Inconclusive("Airplanes table not found after reconnect")
             compare_rows(col, rows, expect, cls, dict(inp, lines2=[d.decode() for _, d, *_ in lines2]), "after_reconnect_tracked_aircraft_kept")
@@ -321,8 +345,11 @@ def main(a, lcol, col, run_all, scratch, START):
     # quick: every malformed kind once per client, every segmentation x delay class covered once,
     # the three disconnect modes; thorough: random combinations on top
     combos = []
-    for m in malformed_kinds:
+    for k, m in enumerate(malformed_kinds):
         combos.append(("per_line", "none", m))
+        if m != "none":
+            # the same malformed lines cut in the middle with pauses beyond the read timeout
+            combos.append((["cut_in_hex", "random_cuts", "cut_after_star"][k % 3], "gt_timeout", m))
     for sk in SEGMENTATIONS:
         for dk in DELAYS:
             if sk == "per_byte" and dk == "gt_timeout":
